@@ -1,5 +1,6 @@
 import RlboxModel.Props.C19
 import RlboxModel.Props.C13
+import RlboxModel.Lemmas.TlsLemmas
 /-!
 # C12 — A callback call runs exactly the registered function with faithful arguments
 Property theorems only.
@@ -53,6 +54,38 @@ theorem C12_owned_is_reachable (w : World) (hi : C13.Inv w) (i o f : Nat) (h : C
 `thread_local`.  (The dylib backend's callback machinery is no longer compared textually with the noop
 backend's: it is executed by the `calls` engine with a dlopen'ed guest library.) -/
 theorem backends_thread_data_is_thread_local : Generated.threadDataThreadLocal = true := by decide
+
+/-- **The real mechanism refines the specification.**  The bundled backends do not pass the executing
+sandbox to a callback: the trampoline and the interceptor read it from the per-thread record that
+`impl_invoke_with_func_ptr` sets and a scope-exit guard restores (`Tls.lean`).  For every call tree --
+any depth, any width, any sandboxes, a fault anywhere -- and every initial content of the record, that
+machine produces exactly the events of the parameter-passing semantics, and leaves
+`thread_data.sandbox` as it found it (so the statement composes over any number of invocations on one
+thread). -/
+theorem C12_tls_refines (slots : SlotMap) (is : List Inv) (t : Tls) :
+    (lrunInvs slots t is).1 = runInvs slots is ∧ (lrunInvs slots t is).2.cur = t.cur :=
+  TlsLemmas.tls_invs slots is t
+
+/-- Consequently, in the real mechanism too, every callback execution receives the sandbox that is
+executing at that moment and is the function registered for the entry point that was called. -/
+theorem C12_tls_executing_sandbox (slots : SlotMap) (is : List Inv) (t : Tls) :
+    nests [] (lrunInvs slots t is).1.evs := by
+  rw [(C12_tls_refines slots is t).1]; exact C12_executing_sandbox slots is
+
+/-- ... and while guest code of sandbox `sb` runs (the record says `sb`), a call of entry point `slot`
+dispatches on `sb`'s table at `slot`, whatever the record's `last_callback_invoked` was before. -/
+theorem C12_tls_dispatch (slots : SlotMap) (sb : Nat) (c : Cb) (t : Tls) (h : t.cur = some sb) :
+    (lrunCb slots t c).1 = runCb slots sb c ∧ (lrunCb slots t c).2.cur = some sb :=
+  TlsLemmas.tls_cb slots sb c t h
+
+/-- non-vacuity: sandbox 0's guest calls a callback whose body invokes sandbox 1 (which calls a callback
+of its own); afterwards sandbox 0's guest calls a second callback -- it must still see sandbox 0, which
+is exactly what the scope-exit restore provides -/
+example :
+    let slots : SlotMap := fun sb k => if sb = 0 then some (10 + k) else some (20 + k)
+    ((lrunInvs slots Tls.init [.mk 0 5 .none [.mk 1 7 70 .none [.mk 1 9 .none [.mk 0 3 30 .none []]], .mk 2 8 80 .none []]]).1.evs.filter
+      (fun e => match e with | .cbRun _ _ _ => true | _ => false) = [.cbRun 11 0 7, .cbRun 20 1 3, .cbRun 12 0 8]) ∧
+    (lrunInvs slots Tls.init [.mk 0 5 .none [.mk 1 7 70 .body [.mk 1 9 .none []]]]).2.cur = none := by decide
 
 example :
     let slots : SlotMap := fun sb k => if sb = 0 ∧ k = 1 then some 2 else if sb = 1 ∧ k = 0 then some 0 else none
